@@ -157,7 +157,29 @@ SPEC = {
             "threads.concurrent_runs": 16, "probe.compile_time_refusals": 13,
             "_distinct_nontrivial": 3000,
         },
-        "thorough": {},
+        "thorough": {
+            # asan + ubsan units both walk the complete tables: 2 x (10p+2) / 2 x (15P+3) blocks (Zp_field_element adds 2 x (6p+1) up to p = 61)
+            "blocks.exhaustive.p97": 1944, "blocks.exhaustive.p61": 1958, "blocks.exhaustive.p2": 110, "blocks.exhaustive.product210": 6306,
+            "blocks.exhaustive.product105": 3156, "blocks.exhaustive.product30": 2052, "blocks.range_sets": 13786,
+            "class.Z2_field_element": 32, "class.Z2_field_operators": 20, "class.Zp_field_element": 6000, "class.Shared_Zp_field_element": 12000,
+            "class.Zp_field_operators": 7000, "class.Field_Zp": 3000, "class.Multi_field_element": 600, "class.Shared_multi_field_element": 1500,
+            "class.Multi_field_operators": 2500, "class.Multi_field_element_with_small_characteristics": 5000,
+            "class.Shared_multi_field_element_with_small_characteristics": 20000, "class.Multi_field_operators_with_small_characteristics": 4000,
+            "class.pcoh::Multi_field": 1000,
+            "op.convert.int": 2500000, "op.convert.long": 3000000, "op.convert.uint": 2400000, "op.convert.ulong": 2500000, "op.convert.big": 100000,
+            "op.add": 60000000, "op.sub": 60000000, "op.mul": 60000000, "op.add_mixed": 1000000000, "op.sub_mixed": 1000000000, "op.mul_mixed": 1000000000,
+            "op.inplace": 1800000000, "op.fused.mul_add": 1400000000, "op.fused.add_mul": 1400000000, "op.cmp": 60000000, "op.cmp_mixed": 550000000,
+            "op.inverse": 8000000, "op.partial_inverse": 12000000, "op.partial_identity": 2000000, "op.get_value": 350000,
+            "op.coh.plus_times_equal": 22000000, "op.coh.times_minus": 2500000, "op.refuse": 2000,
+            "state.negative_operand": 600000, "state.operand_below_minus_p": 400000, "state.operand_ge_p": 500000, "state.operand_p_minus_1": 190000,
+            "state.result_needed_reduction": 65000000, "state.sum_wraps_uint32": 3500000, "state.fused_exact_above_2p31": 12000000,
+            "state.partial_inverse_some_primes": 2000000, "state.partial_inverse_no_prime": 2800000, "state.partial_proper_subproduct": 8000000,
+            "blocks.prime_ge_32749": 150, "blocks.random_prime_gt_16384": 100, "blocks.product_above_2p31": 2500, "blocks.product_above_64_bits": 2000,
+            "refuse.composite": 900, "refuse.range_without_prime": 400, "refuse.single_composite": 300, "refuse.not_greater_than_1": 60,
+            "refuse.prime_above_documented_maximum": 3,
+            "threads.concurrent_runs": 64, "probe.compile_time_refusals": 13,
+            "_distinct_nontrivial": 22000,
+        },
     },
     "exhaustive": {"quick": False, "thorough": False},
     "exhaustive_note": "complete enumeration only of these sub-spaces: (a) single-prime run-time classes (Zp_field_operators, Shared_Zp_field_element, "
@@ -166,5 +188,23 @@ SPEC = {
                        "105, 210) and GMP multi-fields with product 2,6,15 (thorough: 30): all operands in [-3P,3P] and every sub-product Q; (c) thorough: every "
                        "run of >= 2 consecutive primes with product < 2^32 as a range of the shared small multi-field (operands sampled). Everything else is sampled.",
     "extra": _extra,
-    "manifest": {"text": "wip", "note": "", "technique": ""},
+    "manifest": {
+        "text": "Runtime monitor over the 13 coefficient-field classes (Z2 / Zp / multi-field element and operator classes incl. shared and small variants, "
+                "and Field_Zp / Multi_field of the cohomology engine): every public constructor, integer conversion (int, long, unsigned, unsigned long, bool, "
+                "mpz incl. negative and > 64-bit values), operator (element-element, element-integer, integer-element, in-place), fused method in all "
+                "in-place variants, comparison, inverse, partial inverse (every sub-product Q of ranges with <= 6 primes) and identity is compared with exact "
+                "__int128 / GMP integer arithmetic reduced by the mathematical remainder, under ASan+UBSan (and again under -O2 UBSan in the thorough tier). "
+                "Completely enumerated: all operand pairs/triples in [-3p,3p] for every prime p <= 31 (thorough <= 97; compile-time class <= 61) and for "
+                "multi-fields of product <= 35 (thorough <= 210; GMP <= 30), and in thorough every run of >= 2 consecutive primes with product < 2^32 as a "
+                "small multi-field range. Sampled with boundary-directed operands: primes 251, 257, 32749, 46337, 65519, 65521, random primes < 2^16, "
+                "products above 2^31 and above 2^64, one-prime and prime-free ranges. Non-prime characteristics (0, 1, composites incl. Carmichael numbers "
+                "and prime squares, prime-free ranges, min > max) must throw; compile-time refusals are checked by negative compile probes. 8 threads using "
+                "their own elements of one type run under ThreadSanitizer. Held on what was observed (~4e8 evaluations quick, ~2e10 thorough), not a proof.",
+        "note": "trusted: harness oracle (c10_common.h: __int128, trial division), GMP, libstdc++. Preconditions respected: signed integer types able to hold "
+                "the characteristic; fused methods documented 'not overflow safe' only get word-sized exact values; small multi-field operators only with "
+                "product <= 65535; Q a sub-product of the range; no inverse of 0 in a prime field; cohomology classes get reduced operands; only the default "
+                "unsigned int element type is instantiated; primes >= 2^16 are not tried for the run-time Z_p classes (O(p^2) table construction).",
+        "technique": "runtime monitoring: exhaustive small-field enumeration + boundary-directed/random operands against an exact-integer oracle, under "
+                     "AddressSanitizer/UBSan/ThreadSanitizer; negative compile probes for static_assert refusals",
+    },
 }
